@@ -1,4 +1,5 @@
 import Babble.Model.Decode
+import Babble.Model.ByteCodec
 /-! Line-protocol engine for the decode-layer model (`DEC ...`). Strings arrive percent-escaped. -/
 open Babble.Decode
 
@@ -16,8 +17,24 @@ def unesc (s : String) : Bytes :=
 
 def parseSigIn (k oc sg v : String) : SigIn := { keyHex := unesc k, onCurve := oc == "1", sig := unesc sg, valid := v == "1" }
 
+def hexLow (n : Nat) : Char := if n < 10 then Char.ofNat (48 + n) else Char.ofNat (87 + n)
+/-- bytes as lower-case hexadecimal (`-` for the empty string) -/
+def showBytes (bs : List Nat) : String :=
+  if bs.isEmpty then "-" else String.ofList (bs.flatMap (fun b => [hexLow (b / 16), hexLow (b % 16)]))
+def showAscii (bs : List Nat) : String := String.ofList (bs.map Char.ofNat)
+
 def decStep (toks : List String) : List String :=
   match toks with
+  | ["hexenc", s] => [s!"O {showAscii (Babble.ByteCodec.encodeToString (unesc s))}"]
+  | ["hexdec", s] => match Babble.ByteCodec.decodeFromString (unesc s) with
+    | some bs => [s!"O ok {showBytes bs}"]
+    | none => ["O err"]
+  | ["sigenc", r, s] => match r.toNat?, s.toNat? with
+    | some r, some s => [s!"O {showAscii (Babble.ByteCodec.encodeSignature r s)}"]
+    | _, _ => ["O bad-op"]
+  | ["sigdec", s] => match Babble.ByteCodec.decodeSignature (unesc s) with
+    | some (r, s) => [s!"O ok {r} {s}"]
+    | none => ["O err"]
   | ["hex", s] => match decodeFromString (unesc s) with
     | .ok n => [s!"O ok {n}"]
     | o => [s!"O {o.cls}"]
